@@ -90,8 +90,10 @@ def run(pid, tier, seed, replay=None):
     for fid, (f, n) in sorted(known_hits.items()):
         print("KNOWN-FINDING: property=%s %s [%s, %s, %d record group(s) this run]" % (pid, f["what"], fid, f["invariant"], n))
     models = []
+    mlist = list(cfg.get("models", []))
     if cfg.get("model"):
-        mod, mcfg = cfg["model"]
+        mlist.append(cfg["model"])
+    for mod, mcfg in mlist:
         m = V.run_tlc_model(pid, mod, mcfg, timeout=900)
         V.log("design model %s: %d distinct states, violated=%s" % (mcfg, m["distinct"], m["violated"]))
         models.append(m)
